@@ -4,7 +4,6 @@ package main
 
 import (
 	"fmt"
-	"go/constant"
 	"go/token"
 	"go/types"
 	"strings"
@@ -14,7 +13,7 @@ import (
 
 func init() {
 	register("C20", false,
-		"Structural necessary conditions decided from source: (C20-format) every constant format that can reach the Sprintf of decToMinDec has the shape DD-MM.MMMMH / DDD-MM.MMMMH: zero-padded degrees of width 2 on the latitude edge and 3 on the longitude edge with precision 0, '-', zero-padded minutes of width 7 precision 4, one %c; (C20-hemi) the hemisphere letter reaching %c is N/S under latitude and E/W under longitude, N/E only where the value is known non-negative and S/W only where negative (decided from the branch conditions dominating each assignment); (C20-course) NewCourse formats the degrees zero-padded to width 3 and the value formatted is proven within [0,359] (guards on the parameter), the stringer appends M exactly on the Magnetic edge and T otherwise; (C20-optional) every dereference of an optional pointer field of PosReport in Message is dominated by its non-nil test and each optional line is written only on that edge; (C20-valid) Message sets a non-empty body, subject and recipient on every path before returning (so Validate cannot fail on them). NOT decided: numeric accuracy and the 'minutes < 60' clause (floating-point rounding of values: 10.9999999 prints 10-60.0000N) - a value property no structural rule reaches.",
+		"Structural necessary conditions decided from source: (C20-format) every constant format that can reach the Sprintf of decToMinDec has the shape DD-MM.MMMMH / DDD-MM.MMMMH: zero-padded degrees of width 2 on the latitude edge and 3 on the longitude edge with precision 0, '-', zero-padded minutes of width 7 precision 4, one %c; (C20-hemi) the hemisphere letter reaching %c is N/S under latitude and E/W under longitude, N/E only where the value is known non-negative and S/W only where negative (decided by enumerating kind x sign and following the branch structure, through same-package helpers and local closures that select the letter, with parameters bound to the arguments); (C20-course) NewCourse formats the degrees zero-padded to width 3 and the value formatted is proven within [0,359] (guards on the parameter) - or stores the three digit bytes one by one, each recognised as '0' + the hundreds/tens/units digit (written with / and % by 10 and 100) of one value derived from the parameter and proven within [0,359] -, the stringer appends M exactly on the Magnetic edge and T otherwise; (C20-optional) every dereference of an optional pointer field of PosReport in Message - and in the same-package helpers and local closures Message calls to assemble the text - is dominated by its non-nil test and each optional line is written only on that edge (formats are folded through helper parameters; the conditions at every call on the way to the write count); (C20-valid) Message sets a non-empty body, subject and recipient on every path before returning (so Validate cannot fail on them), the body being a buffer that received a line with a literal prefix on every path, possibly returned by a helper. NOT decided: numeric accuracy and the 'minutes < 60' clause (floating-point rounding of values: 10.9999999 prints 10-60.0000N) - a value property no structural rule reaches.",
 		checkC20)
 }
 
@@ -203,8 +202,10 @@ func checkC20(c *Ctx, r *Report) {
 	} else {
 		where := fnName(fn)
 		calls := callsTo(fn, false, "fmt.Sprintf")
-		if len(calls) != 1 {
-			r.Fail("C20-course", "NewCourse has %d fmt.Sprintf calls, expected the one formatting the degrees (unresolved)", len(calls))
+		if len(calls) == 0 && c20courseDigits(c, r, pr, fn) {
+			// the digits are computed arithmetically and were examined one by one (below)
+		} else if len(calls) != 1 {
+			r.Fail("C20-course", "NewCourse has %d fmt.Sprintf calls, expected the one formatting the degrees, and does not assign the three digits one by one either (unresolved)", len(calls))
 		} else {
 			ci := calls[0]
 			o := r.Add("C20-course", where, "degrees format", c.pos(ci.Pos()))
@@ -343,91 +344,52 @@ func checkC20(c *Ctx, r *Report) {
 		r.Fail("C20-optional", "anchor catalog.PosReport.Message not found")
 	} else {
 		where := fnName(fn)
-		eachInstr(fn, func(_ *ssa.BasicBlock, _ int, instr ssa.Instruction) {
-			ld, ok := instr.(*ssa.UnOp)
-			if !ok || ld.Op != token.MUL {
-				return
-			}
-			// deref of a pointer that was itself loaded from a field of the receiver
-			inner, ok := ld.X.(*ssa.UnOp)
-			if !ok || inner.Op != token.MUL {
-				if f, isF := ld.X.(*ssa.Field); isF {
-					_ = f
-				} else {
-					return
-				}
-			}
-			ptrPath := pathOf(ld.X)
-			if _, isPtr := ld.X.Type().Underlying().(*types.Pointer); !isPtr || !strings.Contains(ptrPath, ".") {
-				return
-			}
-			guarded := false
-			for _, cd := range condsAt(ld.Block()) {
-				if b, ok := cd.V.(*ssa.BinOp); ok && b.Op == token.NEQ && cd.Truth && isNilConst(b.Y) && pathOf(b.X) == ptrPath {
-					guarded = true
-				}
-				if b, ok := cd.V.(*ssa.BinOp); ok && b.Op == token.EQL && !cd.Truth && isNilConst(b.Y) && pathOf(b.X) == ptrPath {
-					guarded = true
-				}
-			}
-			r.Check("C20-optional", where, "dereference *"+ptrPath, c.pos(ld.Pos()), guarded,
-				"dominated by the true edge of "+ptrPath+" != nil", "optional field "+ptrPath+" is dereferenced without a dominating non-nil test (nil pointer panic when the field is unset)")
-			// ... and by nothing else: the line must appear whenever the field is set
-			extra := ""
-			for _, cd := range condsAt(ld.Block()) {
-				if b, ok := cd.V.(*ssa.BinOp); ok && isNilConst(b.Y) && strings.Contains(pathOf(b.X), ".") {
-					if _, isPtr := b.X.Type().Underlying().(*types.Pointer); isPtr {
-						continue
-					}
-				}
-				extra = pathOf(cd.V)
-			}
-			r.Check("C20-optional", where, "line of "+ptrPath+" appears whenever it is set", c.pos(ld.Pos()), extra == "",
-				"the only conditions on the path are non-nil tests of optional fields", "the line is additionally conditional on "+extra+": a field that is set (e.g. to zero) can be silently omitted")
-		})
+		// the body may be assembled in same-package helpers / local closures that Message calls:
+		// the rules look at Message and at everything it calls statically there (ip_g9.go)
+		for _, sf := range g9Scope(fn) {
+			c20derefs(c, r, sf)
+		}
 		// every line of an optional (pointer) field is written under the non-nil tests of optional
-		// fields and under nothing else - whatever helper computes the value printed
+		// fields and under nothing else - whatever helper computes the value printed, and whichever
+		// helper does the writing (the format is folded with the helper's parameters bound to the
+		// arguments; the conditions are those at the write and at every call on the way to it)
 		optLabels := map[string]bool{}
-		for _, ci := range callsTo(fn, false, "fmt.Fprintf", "fmt.Fprint", "fmt.Fprintln", "bytes.Buffer.WriteString", "fmt.Sprintf") {
-			args := ci.Common().Args
-			var format string
-			for _, a := range args {
-				if s, ok := constString(a); ok && format == "" {
-					format = s
-				}
-			}
+		g9Lines(c, fn, nil, nil, func(l g9Line) {
 			label := ""
-			for _, l := range []string{"LATITUDE", "LONGITUDE", "SPEED", "COURSE"} {
-				if strings.HasPrefix(format, l+":") {
-					label = l
+			for _, lb := range []string{"LATITUDE", "LONGITUDE", "SPEED", "COURSE"} {
+				if strings.HasPrefix(l.format, lb+":") {
+					label = lb
 				}
 			}
 			if label == "" {
-				continue
+				return
 			}
 			optLabels[label] = true
 			extra, nilTests := "", 0
-			for _, cd := range condsAt(ci.Block()) {
-				if b, ok := cd.V.(*ssa.BinOp); ok && isNilConst(b.Y) && strings.Contains(pathOf(b.X), ".") && ((b.Op == token.NEQ) == cd.Truth) {
-					if _, isPtr := b.X.Type().Underlying().(*types.Pointer); isPtr {
-						nilTests++
-						continue
-					}
+			for _, cd := range l.conds {
+				if g9NilTestOfField(cd) {
+					nilTests++
+					continue
 				}
-				extra = c.exprAt(fn, cd.V.Pos())
+				if cd.note != "" {
+					extra = cd.note
+					continue
+				}
+				extra = c.exprAt(cd.fn, cd.V.Pos())
 				if extra == "" {
 					extra = pathOf(cd.V)
 				}
 			}
+			o := r.Add("C20-optional", where, "line "+label+" written iff set", c.pos(l.labelAt().Pos()))
 			switch {
 			case extra != "":
-				r.Add("C20-optional", where, "line "+label+" written iff set", c.pos(ci.Pos())).Bad("the %s line is conditional on %s, which is not a non-nil test of the optional field: a field that is set (e.g. a speed of exactly zero) is silently omitted, or an unset one printed", label, extra)
+				o.Bad("the %s line is conditional on %s, which is not a non-nil test of the optional field: a field that is set (e.g. a speed of exactly zero) is silently omitted, or an unset one printed", label, extra)
 			case nilTests == 0:
-				r.Add("C20-optional", where, "line "+label+" written iff set", c.pos(ci.Pos())).Bad("the %s line is written unconditionally although its field is optional", label)
+				o.Bad("the %s line is written unconditionally although its field is optional", label)
 			default:
-				r.Add("C20-optional", where, "line "+label+" written iff set", c.pos(ci.Pos())).OK("written exactly under the non-nil test(s) of the optional field(s)")
+				o.OK("written exactly under the non-nil test(s) of the optional field(s)")
 			}
-		}
+		})
 		for _, l := range []string{"LATITUDE", "LONGITUDE", "SPEED", "COURSE"} {
 			if !optLabels[l] {
 				r.Add("C20-optional", where, "line "+l+" written iff set", c.pos(fn.Pos())).Bad("no write of a %s line with a constant label found (unresolved)", l)
@@ -438,35 +400,23 @@ func checkC20(c *Ctx, r *Report) {
 			callee string
 			what   string
 		}
-		rets := returnsOf(fn)
 		for _, n := range []need{{"fbb.Message.SetBody", "body"}, {"fbb.Message.SetSubject", "subject"}, {"fbb.Message.AddTo", "recipient"}} {
-			calls := callsTo(fn, false, n.callee)
+			// the call is made by Message itself or by a helper Message always calls
+			ci, chain, domAll, found := g9Establishing(fn, n.callee, nil)
 			o := r.Add("C20-valid", where, n.callee, c.pos(fn.Pos()))
-			if len(calls) == 0 {
+			if !found {
 				o.Bad("no call of %s: the message would fail Validate (%s missing)", n.callee, n.what)
 				continue
-			}
-			ci := calls[0]
-			domAll := true
-			for _, ret := range rets {
-				if !instrDominates(ci, ret) {
-					domAll = false
-				}
 			}
 			nonEmpty := false
 			arg := ci.Common().Args[1]
 			switch n.what {
 			case "body":
-				// buf.String() of a buffer that received a Fprintf with a non-empty literal prefix on every path
-				for _, fp := range callsTo(fn, false, "fmt.Fprintf") {
-					if s, ok := constString(fp.Common().Args[1]); ok && instrDominates(fp, ci) {
-						if vs, _ := parseVerbs(s); len(vs) > 0 && vs[0].lit != "" {
-							nonEmpty = true
-						}
-					}
-				}
+				// a non-blank constant, or buf.String() of a buffer that received a write with a non-empty
+				// literal prefix on every path - possibly returned by a helper that assembles the text
+				nonEmpty = g9NonEmptyText(c, ci.Parent(), arg, ci, chain, 0)
 			case "subject":
-				s, ok := constString(arg)
+				s, ok := constString(g9Up(arg, chain))
 				nonEmpty = ok && strings.TrimSpace(s) != ""
 			case "recipient":
 				if sl, ok := arg.(*ssa.Slice); ok {
@@ -475,7 +425,7 @@ func checkC20(c *Ctx, r *Report) {
 							if ia, ok := ref.(*ssa.IndexAddr); ok {
 								for _, r2 := range *ia.Referrers() {
 									if st, ok := r2.(*ssa.Store); ok {
-										if s, ok := constString(st.Val); ok && s != "" {
+										if s, ok := constString(g9Up(st.Val, chain)); ok && s != "" {
 											nonEmpty = true
 										}
 									}
@@ -519,113 +469,26 @@ func c20hemi(c *Ctx, r *Report, pr *prover, fn *ssa.Function, where string, lett
 			kind := map[bool]string{true: "latitude", false: "longitude"}[lat]
 			sname := map[int]string{-1: "negative", 0: "zero", 1: "positive"}[sign]
 			o := r.Add("C20-hemi", where, kind+" "+sname, c.pos(ci.Pos()))
-			phiVal := map[*ssa.Phi]ssa.Value{}
-			var eval func(v ssa.Value) (bool, bool)
-			eval = func(v ssa.Value) (bool, bool) {
-				switch x := v.(type) {
-				case *ssa.Parameter:
-					if x.Name() == latParam {
-						return lat, true
-					}
-				case *ssa.Const:
-					if x.Value != nil && x.Value.Kind() == constant.Bool {
-						return constant.BoolVal(x.Value), true
-					}
-				case *ssa.UnOp:
-					if x.Op == token.NOT {
-						b, ok := eval(x.X)
-						return !b, ok
-					}
-				case *ssa.Phi:
-					if pv, ok := phiVal[x]; ok {
-						return eval(pv)
-					}
-				case *ssa.BinOp:
-					var op token.Token
-					if decParam != nil && x.X == ssa.Value(decParam) && isZeroFloat(x.Y) {
-						op = x.Op
-					} else if decParam != nil && x.Y == ssa.Value(decParam) && isZeroFloat(x.X) {
-						op = flipOp(x.Op)
-					} else {
-						return false, false
-					}
-					switch op {
-					case token.GTR:
-						return sign > 0, true
-					case token.GEQ:
-						return sign >= 0, true
-					case token.LSS:
-						return sign < 0, true
-					case token.LEQ:
-						return sign <= 0, true
-					case token.EQL:
-						return sign == 0, true
-					case token.NEQ:
-						return sign != 0, true
-					}
-				}
-				return false, false
-			}
-			cur := fn.Blocks[0]
-			var prev *ssa.BasicBlock
-			stuck := ""
-			for steps := 0; steps < 200; steps++ {
-				if prev != nil {
-					k := -1
-					for i, p := range cur.Preds {
-						if p == prev {
-							k = i
-						}
-					}
-					for _, in := range cur.Instrs {
-						ph, ok := in.(*ssa.Phi)
-						if !ok {
-							break
-						}
-						v := ph.Edges[k]
-						if inner, isPhi := v.(*ssa.Phi); isPhi {
-							if pv, ok := phiVal[inner]; ok {
-								v = pv
-							}
-						}
-						phiVal[ph] = v
-					}
-				}
-				if cur == ci.Block() {
-					break
-				}
-				last := cur.Instrs[len(cur.Instrs)-1]
-				switch t := last.(type) {
-				case *ssa.If:
-					b, ok := eval(t.Cond)
-					if !ok {
-						stuck = "a branch at " + c.pos(t.Cond.Pos()) + " depends on something other than the latitude flag and the sign of the value"
-					}
-					prev = cur
-					if b {
-						cur = cur.Succs[0]
-					} else {
-						cur = cur.Succs[1]
-					}
-				case *ssa.Jump:
-					prev, cur = cur, cur.Succs[0]
-				default:
-					stuck = "the formatting call is not reached"
-				}
-				if stuck != "" {
-					break
+			// follow the branch structure for this case - through same-package functions called
+			// statically too, parameters bound to the abstract arguments (ip_g9.go) - to the call
+			ev := &g9Cases{c: c, sign: sign}
+			bind := map[*ssa.Parameter]g9Abs{}
+			for _, p := range fn.Params {
+				switch {
+				case p.Name() == latParam:
+					bind[p] = g9Abs{kind: g9Boolean, b: lat}
+				case p == decParam:
+					bind[p] = g9Abs{kind: g9Coord}
 				}
 			}
-			if stuck != "" || cur != ci.Block() {
-				if stuck == "" {
-					stuck = "the formatting call is not reached"
-				}
+			fr, _, stuck := ev.run(fn, bind, ci.Block(), nil, 0)
+			if stuck != "" {
 				o.Bad("cannot decide the letter: %s", stuck)
 				continue
 			}
-			lv := unwrap(letter)
-			if ph, ok := lv.(*ssa.Phi); ok {
-				lv = unwrap(phiVal[ph])
+			var lv ssa.Value
+			if a := ev.eval(letter, fr, 0); a.kind == g9Constant {
+				lv = a.c
 			}
 			n, ok := constInt(lv)
 			if !ok {
@@ -698,4 +561,210 @@ func negOp(op token.Token) token.Token {
 		return token.EQL
 	}
 	return op
+}
+
+// c20courseDigits handles a NewCourse that assigns the three digit bytes one by one instead of
+// formatting with %03d: for every Course it returns, each element of the digit array must be
+// '0' + the decimal digit of its place (hundreds, tens, units) of one and the same value, that
+// value must derive from the degrees parameter without a narrowing conversion, and 0 <= value <= 359
+// must be proved where the digits are stored - which puts each byte in '0'..'9' and makes the three
+// bytes exactly what %03d prints. Returns false when no digit is assigned element-wise at all (the
+// caller then reports the function as unresolved); anything it cannot decide is a violation.
+func c20courseDigits(c *Ctx, r *Report, pr *prover, fn *ssa.Function) bool {
+	where := fnName(fn)
+	var degPar *ssa.Parameter
+	for _, p := range fn.Params {
+		if b, ok := p.Type().Underlying().(*types.Basic); ok && b.Info()&types.IsInteger != 0 {
+			degPar = p
+		}
+	}
+	type course struct {
+		ret   *ssa.Return
+		vals  map[int64]*ssa.Store
+		multi bool
+	}
+	var courses []course
+	any := false
+	for _, ret := range returnsOf(fn) {
+		v := resOf(ret, 0)
+		if isNilConst(v) {
+			continue
+		}
+		al, ok := v.(*ssa.Alloc)
+		if !ok {
+			courses = append(courses, course{ret: ret})
+			continue
+		}
+		// the digit array: the field of Course that is an array of bytes
+		field := ""
+		if st, ok := al.Type().Underlying().(*types.Pointer).Elem().Underlying().(*types.Struct); ok {
+			for i := 0; i < st.NumFields(); i++ {
+				if arr, ok := st.Field(i).Type().Underlying().(*types.Array); ok && arr.Len() == 3 {
+					if b, ok := arr.Elem().Underlying().(*types.Basic); ok && b.Kind() == types.Uint8 {
+						field = st.Field(i).Name()
+					}
+				}
+			}
+		}
+		vals, multi := g9DigitStores(al, field)
+		if len(vals) > 0 {
+			any = true
+		}
+		courses = append(courses, course{ret, vals, multi})
+	}
+	if !any {
+		return false
+	}
+	for _, cs := range courses {
+		var value ssa.Value
+		var at ssa.Instruction
+		same := true
+		for place := int64(0); place < 3; place++ {
+			o := r.Add("C20-course", where, fmt.Sprintf("digit %d of the course", place+1), c.pos(cs.ret.Pos()))
+			st := cs.vals[place]
+			switch {
+			case cs.multi:
+				o.Bad("the digit array is also written in a way that is not followed (copy, variable index, repeated assignment): cannot decide what it holds")
+				continue
+			case st == nil:
+				o.Bad("digit %d is never assigned on this path: the course would carry a zero byte instead of a decimal digit", place+1)
+				continue
+			case !instrDominates(st, cs.ret):
+				o.Bad("digit %d is not assigned on every path to the return", place+1)
+				continue
+			}
+			o.Pos = c.pos(st.Pos())
+			v, p, ok := g9DigitOf(st.Val)
+			switch {
+			case !ok:
+				o.Bad("cannot decide that this byte is a decimal digit: it is not '0' plus a digit selected with / and %% by 10 or 100")
+			case int64(p) != place:
+				o.Bad("position %d of the course holds the %s digit of the value (the report needs hundreds, tens, units in this order)", place+1, []string{"hundreds", "tens", "units"}[p])
+			default:
+				if value == nil {
+					value, at = v, st
+				} else if value != v {
+					same = false
+				}
+				o.OK("'0' + the %s digit of %s: within '0'..'9' for a value in [0,999]", []string{"hundreds", "tens", "units"}[p], pathOf(v))
+			}
+		}
+		o := r.Add("C20-course", where, "formatted value within three digits", c.pos(cs.ret.Pos()))
+		switch {
+		case value == nil:
+			o.Bad("could not identify the value whose digits are stored")
+		case !same:
+			o.Bad("the three digits are taken from different values")
+		case degPar == nil || !dependsOn(value, func(x ssa.Value) bool { return x == ssa.Value(degPar) }) || g9Narrowed(value, degPar):
+			o.Bad("the value whose digits are stored does not derive from the degrees parameter unchanged in width")
+		case pr.LE(nil, false, 0, value, false, 0, at) && pr.LE(value, false, 0, nil, false, 359, at):
+			o.OK("0 <= %s <= 359 where the digits are stored (guards on the parameter; 360 is mapped to 0): the three bytes are exactly what %%03d prints", pathOf(value))
+		case pr.LE(nil, false, 0, value, false, 0, at) && pr.LE(value, false, 0, nil, false, 999, at):
+			o.Bad("the value is within three digits but 360 is not normalised to 000 (0 <= v <= 359 not established)")
+		default:
+			o.Bad("the value whose digits are stored is not proven within [0,359]: a digit byte outside '0'..'9' (or a wrapped one) could be stored")
+		}
+	}
+	return true
+}
+
+// g9Narrowed: on the way from the parameter to v the value passes a conversion to an integer type
+// too narrow for 0..359 (the digits would be those of another number).
+func g9Narrowed(v ssa.Value, par *ssa.Parameter) bool {
+	narrowed := false
+	dependsOn(v, func(x ssa.Value) bool {
+		if cv, ok := x.(*ssa.Convert); ok {
+			if b, ok := cv.Type().Underlying().(*types.Basic); ok {
+				switch b.Kind() {
+				case types.Int8, types.Uint8, types.Bool, types.Float32, types.Float64, types.String:
+					narrowed = true
+				}
+			}
+		}
+		return false
+	})
+	return narrowed
+}
+
+// c20derefs: every dereference, in fn, of an optional pointer field (a pointer loaded from a field)
+// stands under the non-nil test of that field and under no condition other than non-nil tests of
+// optional fields. A helper that receives the pointer as a parameter is examined with the
+// parameter bound to the field at its call sites: the test may be made in the helper on the
+// parameter, or on the field at every call site.
+func c20derefs(c *Ctx, r *Report, fn *ssa.Function) {
+	where := fnName(fn)
+	nilGuard := func(b *ssa.BasicBlock, path string) bool {
+		for _, cd := range condsAt(b) {
+			if bo, ok := cd.V.(*ssa.BinOp); ok && isNilConst(bo.Y) && pathOf(bo.X) == path {
+				if (bo.Op == token.NEQ && cd.Truth) || (bo.Op == token.EQL && !cd.Truth) {
+					return true
+				}
+			}
+		}
+		return false
+	}
+	eachInstr(fn, func(_ *ssa.BasicBlock, _ int, instr ssa.Instruction) {
+		ld, ok := instr.(*ssa.UnOp)
+		if !ok || ld.Op != token.MUL {
+			return
+		}
+		if _, isPtr := ld.X.Type().Underlying().(*types.Pointer); !isPtr {
+			return
+		}
+		ptrPath := pathOf(ld.X)
+		shown := ptrPath
+		guarded := false
+		if par, isPar := ld.X.(*ssa.Parameter); isPar {
+			// pointer parameter of a helper: an optional field if a caller passes one
+			sites := c.callSites(fn)
+			isField := false
+			for _, s := range sites {
+				if a := g9ParamArg(par, s); a != nil && strings.Contains(pathOf(a), ".") {
+					if _, inner := a.(*ssa.UnOp); inner {
+						isField = true
+						shown = pathOf(a)
+					}
+				}
+			}
+			if !isField {
+				return
+			}
+			guarded = nilGuard(ld.Block(), ptrPath)
+			if !guarded {
+				guarded = true
+				for _, s := range sites {
+					a := g9ParamArg(par, s)
+					if _, isCall := s.(*ssa.Call); !isCall || a == nil || !nilGuard(s.Block(), pathOf(a)) {
+						guarded = false
+					}
+				}
+			}
+		} else {
+			// deref of a pointer that was itself loaded from a field of the receiver
+			inner, ok := ld.X.(*ssa.UnOp)
+			if !ok || inner.Op != token.MUL {
+				if _, isF := ld.X.(*ssa.Field); !isF {
+					return
+				}
+			}
+			if !strings.Contains(ptrPath, ".") {
+				return
+			}
+			guarded = nilGuard(ld.Block(), ptrPath)
+		}
+		r.Check("C20-optional", where, "dereference *"+shown, c.pos(ld.Pos()), guarded,
+			"dominated by the true edge of "+shown+" != nil", "optional field "+shown+" is dereferenced without a dominating non-nil test (nil pointer panic when the field is unset)")
+		// ... and by nothing else: the line must appear whenever the field is set
+		extra := ""
+		for _, cd := range condsAt(ld.Block()) {
+			if b, ok := cd.V.(*ssa.BinOp); ok && isNilConst(b.Y) && (strings.Contains(pathOf(b.X), ".") || pathOf(b.X) == ptrPath) {
+				if _, isPtr := b.X.Type().Underlying().(*types.Pointer); isPtr {
+					continue
+				}
+			}
+			extra = pathOf(cd.V)
+		}
+		r.Check("C20-optional", where, "line of "+shown+" appears whenever it is set", c.pos(ld.Pos()), extra == "",
+			"the only conditions on the path are non-nil tests of optional fields", "the line is additionally conditional on "+extra+": a field that is set (e.g. to zero) can be silently omitted")
+	})
 }
